@@ -279,6 +279,11 @@ Section Parser.
 
   Definition is_closer (c : N) : bool := (c =? 41) || (c =? 93).
 
+  (* ends_symbol on the byte after a dot inside a list: the dot stands alone when
+     the symbol scanner would stop there *)
+  Definition lone_dot (o : option N) : bool :=
+    match o with None => true | Some c => is_symbol_terminator c end.
+
   (* ---- the parser state: reader + remaining_depth ---- *)
   Record pstate := { rd : reader; depth : N }.
 
@@ -400,8 +405,8 @@ Section Parser.
               (if negb (c =? terminator) then liftR (peek_error MismatchedParenthesis)
                else pret (build acc Null))
             else if c =? 46 then
-              nx <-- liftR (eat_char ;;; peek_or_null) ;;
-              if (nx =? 0) || is_delimiter nx then
+              nx <-- liftR (eat_char ;;; peek) ;;
+              if lone_dot nx then
                 match acc with
                 | [] =>
                     o3 <-- liftR peek ;;
@@ -561,8 +566,8 @@ Section Parser.
                else pret (acc, None))
             else if c =? 46 then
               start <-- liftR position ;;
-              nx <-- liftR (eat_char ;;; peek_or_null) ;;
-              if (nx =? 0) || is_delimiter nx then
+              nx <-- liftR (eat_char ;;; peek) ;;
+              if lone_dot nx then
                 match acc with
                 | [] =>
                     o3 <-- liftR peek ;;
